@@ -8,7 +8,7 @@ from . import common
 
 ID = 'C16'
 LEVEL = 'exploration'
-BUDGET = {'quick': (2500, 75.0), 'thorough': (80000, 1500.0)}
+BUDGET = {'quick': (10000, 80.0), 'thorough': (120000, 1500.0)}
 CHUNK = 20
 RULE = ('a DM1 sender (Dm1.start_send with cycle 50 ms..2 s) whose callback supplies, per cycle, lamp states from all 5^4 combinations and 1..400 trouble codes with '
         'SPN/FMI/OC over their full ranges (boundaries over-weighted); 1-2 receiver stacks with Dm1.subscribe and a raw listener; both data link layers so the message '
